@@ -2143,7 +2143,8 @@ def check_C15(ctx):
         if L is not None and m.identity == ent["name"].split("-V")[0] if False else False:
             pass
         back = {k: x for k, x in m.__dict__.items() if k[0] != "_"}
-        if L is not None and len(pl) != L and ent["name"] == m.identity:
+        discr = ent.get("pin") is not None and name in ("type", "version", "tpIdx", "datumNum")
+        if L is not None and len(pl) != L and ent["name"] == m.identity and not discr:
             key = f"class=payload-length;kind={kind};type={ty[0:1]}"
             if ty[0] == "C" and ty != "CH" and isinstance(v, (bytes, str)):
                 key = "class=C-wrong-length-accepted"
